@@ -678,6 +678,12 @@ def gen_specs(rng: random.Random, tier: str, n: int) -> list[dict]:
         }
         if cfg["maze_ctor"] in ("gen_percolation", "gen_dfs_percolation"):
             cfg["maze_ctor_kwargs"] = {"p": rng.choice([0.3, 0.5, 0.8])}
+        if rng.random() < 0.3 and grid >= 3:
+            # generator arguments whose metadata carries falsy values too (fully_connected=False, do_forks=False, ...)
+            cfg["maze_ctor"] = rng.choice(["gen_dfs", "gen_prim", "gen_dfs_percolation"])
+            cfg["maze_ctor_kwargs"] = rng.choice([{"accessible_cells": grid * grid - 2}, {"do_forks": False}, {"accessible_cells": 0.6, "do_forks": False}, {"max_tree_depth": 3}])
+            if cfg["maze_ctor"] == "gen_dfs_percolation":
+                cfg["maze_ctor_kwargs"] = {"accessible_cells": grid * grid - 2, "p": 0.2}
         ops.append(["make", cfg])
         if rng.random() < 0.6:
             k = rng.randint(3, 9)
